@@ -30,9 +30,65 @@ def _names(t):
   return out
 
 
+_RP_SCRIPT = """
+import numpy as np
+spec = args[0]
+kl = mod('kronecker_factored_lattice_lib')
+t = tf.constant(np.array(spec['t'], dtype='float32'))
+dy = np.array(spec['dy'], dtype='float32')
+with tf.GradientTape() as tape:
+  tape.watch(t)
+  y = kl.custom_reduce_prod(t, spec['axis'])
+  loss = tf.reduce_sum(y * tf.constant(dy))
+g = tape.gradient(loss, t).numpy()
+tn = np.array(spec['t'], dtype='float64')
+ax = spec['axis'] % tn.ndim
+want = np.zeros_like(tn)
+for idx in np.ndindex(*tn.shape):
+  o = idx[:ax] + idx[ax + 1:]
+  p = float(dy[o])
+  for k in range(tn.shape[ax]):
+    if k != idx[ax]:
+      p *= tn[idx[:ax] + (k,) + idx[ax + 1:]]
+  want[idx] = p
+result = {'gradient': g.tolist(), 'partial_products': want.tolist(), 'forward': y.numpy().tolist(),
+          'max_abs_difference': float(np.max(np.abs(g - want)))}
+"""
+
+
 class ReduceProdCase(Case):
   contract_key = None
   xcheck = False
+
+  def replay_desc(self, cfg, model, g):
+    shape = cfg['shape']
+    zeros = set(tuple(z) for z in cfg['zeros'])
+    m = {k: float(Fr(v)) for k, v in (model or {}).items() if v is not None}
+    t = np.zeros(shape)
+    for idx in np.ndindex(*shape):
+      if idx in zeros:
+        t[idx] = 0.0
+      else:
+        v = m.get('t%s' % (list(idx),), 1.5)
+        t[idx] = v if abs(v) > 1e-3 else 1.5      # the pattern says non-zero
+    ax = cfg['axis'] % len(shape)
+    out_shape = tuple(s_ for i, s_ in enumerate(shape) if i != ax)
+    dy = np.ones(out_shape)
+    for o in np.ndindex(*out_shape):
+      v = m.get('dy%s' % (list(o),))
+      if v is not None and abs(v) > 1e-3:
+        dy[o] = v
+    return {'kind': 'script', 'code': _RP_SCRIPT, 'floatx': 'float32',
+            'args': [{'t': t.tolist(), 'dy': dy.tolist(), 'axis': cfg['axis']}], 'kwargs': {}}
+
+  def replay_eval(self, cfg, model, g, desc, nat):
+    failing = []
+    if 'error' in nat:
+      failing.append('raised ' + nat['error'][:200])
+    elif nat['ok']['max_abs_difference'] > 1e-4 * (1 + float(np.max(np.abs(nat['ok']['partial_products'])))):
+      failing.append('gradient differs from the partial products by %g' % nat['ok']['max_abs_difference'])
+    return {'desc': {k: v for k, v in desc.items() if k != 'code'}, 'native': {k: v for k, v in nat.items() if k != 'trace'},
+            'failing': failing}
 
   def body(self, cfg, c):
     kl = load.mod('kronecker_factored_lattice_lib')
